@@ -191,7 +191,9 @@ class PipeEndpoint():
 
         try:
             return self._pipe.recv()
-        except (EOFError, BrokenPipeError):
+        except (EOFError, OSError):
+            # OSError covers BrokenPipeError, ConnectionResetError (the other end has exited without reading what we sent)
+            # and "got end of file during message" (the other end has died in the middle of sending a message)
             raise queue.Empty
 
     def get_nowait(self):
